@@ -34,15 +34,12 @@ def messages_agree(cls, a, b):
         av, bv = asV(a), asV(b)
     except TypeError:
         return z3.BoolVal(True)
-    fa = z3.is_app(av) and av.decl().name().startswith("py_format")
-    fb = z3.is_app(bv) and bv.decl().name().startswith("py_format")
-    if fa and fb:
-        if av.num_args() != bv.num_args():
-            return z3.BoolVal(False)
-        return z3.And(*[av.arg(i) == bv.arg(i) for i in range(1, av.num_args())]) if av.num_args() > 1 else z3.BoolVal(True)
-    if fa != fb:
+    # the non-literal parts of the two messages (identifier, line, column ...) must agree in order; the wording is free
+    pa = [x for x in T.str_parts(av) if not isinstance(x, str)]
+    pb = [x for x in T.str_parts(bv) if not isinstance(x, str)]
+    if len(pa) != len(pb):
         return z3.BoolVal(False)
-    return av == bv
+    return z3.And(*[x == y for x, y in zip(pa, pb)]) if pa else z3.BoolVal(True)
 
 
 def values_equal(a, b):
